@@ -55,11 +55,15 @@ claimed = {
    text="One relation per serialized type, proved in both directions for all states and all snapshots: IRCServer.Marshal is proved (loop invariants over the session map in any iteration order) to write every session exactly once with all 22 plain fields, its user modes and its id (sessRepr, modesRepr), the whole network configuration (cfgRepr: revision, durations, key, limits, ban map, operators, services) and lastProcessed/lastIncludedIndex; IRCServer.Unmarshal is proved to re-establish the same relations between the decoded snapshot and the loaded server (including the reader's legacy fall-backs), to hold exactly the decoded sessions, and to rebuild the derived indexes: the nickname index satisfies the handlers' invariant (only sessions with a nickname, each under its own lowered nickname) and the services list holds exactly the Server sessions. Lemmas show the relations determine every related field (two states related to the same wire form agree). A structural check enumerates the fields of Session, config.Network and IRCServer from go/types and requires each to occur in the relation or on a reasoned exclusion list, so a field added to the state but not serialized is reported without annotation.",
    note="Known finding (listed, not repaired): config.Network.WhitelistedOrigins is not serialized. Fixed: nickname-less sessions were indexed under the empty nickname on load. Not covered yet: the set-valued session fields Channels/invitedTo, the channel table and nickname holds (no relation stated; their code is executed symbolically only). Assumes the protobuf library round-trips pb.Snapshot, Duration.String/ParseDuration and hex encode/decode are inverse, times lie in the int64-nanosecond range, snapshots are taken between entries (no deleted sessions), Unmarshal runs on a fresh server.",
    design="§5 C03"),
+ "C07": dict(
+   text="Function-level part of the containment argument, for all entries: the deferred recover handler of FSM.applyProto (verified as its own unit, the closure applyProto$1) is proved to re-encode exactly the message being applied with its type set to MessageOfDeath and to write exactly that log entry (same index, term, type) to the durable raft log store fsm.store before terminating; FSM.applyRobustMessage is proved to do nothing for such an entry except advancing the session's duplicate-detection marker (postconditions mod-marked and mod-frame: no session, nickname, channel or configuration change), UpdateLastClientMessageID sets the marker for every entry type; FSM.Snapshot is proved to fold a marked entry through applyRobustMessage before deleting it (the marker of the snapshot state has advanced over every marked entry it drops).",
+   note="Not covered: that a panic actually reaches the handler and the process exits (panic/exit control flow is not modelled), the restart, raft's own replay; 'all other entries keep their effect' is C01/C02. Assumes glog.Fatalf terminates, the store keeps what StoreLogProto wrote (C09), proto.Marshal encodes its argument (C18).",
+   design="§5 C07"),
 }
 na = {
  "C05": "whole-system property over process kills, restarts and leader changes of several OS processes running hashicorp/raft; no function contract within reach expresses it (DESIGN §5 C05)",
 }
-notbuilt = ["C02","C04","C07","C08","C09","C20"]
+notbuilt = ["C02","C04","C08","C09","C20"]
 checks = []
 for pid, c in sorted(claimed.items()):
     checks.append({
